@@ -20,9 +20,13 @@ root=/tmp/hcopy-root; mkdir -p $root; cp /verif/known_findings.json $root/
 if [ ! -x $hc/target/release/$bin ]; then echo "RESULT $id BUILD-FAILED"; git -C $wt checkout -q -- .; exit 2; fi
 out=$(VERIF_ROOT=$root $hc/target/release/$bin --tier $tier 2>&1); rc=$?
 echo "$out" | grep -E "VIOLATION|  key=|KNOWN-FINDING|MACHINERY|^\[$id\] tier" | head -24
+log_result() { # <verdict>
+  local keys; keys=$(echo "$out" | grep -E "^  key=" | sed 's/^  key=\([^ ]*\).*/\1/' | sort -u | head -12 | tr '\n' ';')
+  printf '{"patch":"%s","check":"%s","tier":"%s","result":"%s","mode":"scratch-worktree","repo_head":"%s","keys":"%s"}\n' "$(echo $patch | sed 's|.*/verif/||')" "$id" "$tier" "$1" "$(git -C /repo rev-parse --short HEAD)" "$(echo $keys | sed 's/"/\\"/g' | cut -c1-900)" >> /verif/seeded/RESULTS.jsonl
+}
 case $rc in
-  1) echo "RESULT $id $(basename $(dirname $patch))/$(basename $patch) $tier: DETECTED";;
-  0) echo "RESULT $id $(basename $(dirname $patch))/$(basename $patch) $tier: MISSED";;
+  1) echo "RESULT $id $(basename $(dirname $patch))/$(basename $patch) $tier: DETECTED"; log_result DETECTED;;
+  0) echo "RESULT $id $(basename $(dirname $patch))/$(basename $patch) $tier: MISSED"; log_result MISSED;;
   *) echo "RESULT $id $(basename $(dirname $patch))/$(basename $patch) $tier: MACHINERY rc=$rc";;
 esac
 git -C $wt checkout -q -- .
